@@ -82,6 +82,8 @@ pub struct Gen
     seen_contents : Vec<Vec<u8>>,
     shared_pool : bool,
     with_dir : bool,
+    big_files : bool,
+    odd_names : bool,
 }
 
 const LETTERS : &[&str] = &["a", "b", "c", "d", "e", "k", "m", "z"];
@@ -93,6 +95,8 @@ impl Gen
         let mut rng = Rng::new(seed);
         let shared_pool = cfg.shared_pool || rng.chance(1, 3);
         let with_dir = rng.chance(1, 4);
+        let big_files = rng.chance(1, 5);
+        let odd_names = rng.chance(1, 8);
         Gen
         {
             rng : rng,
@@ -105,13 +109,15 @@ impl Gen
             seen_contents : vec![],
             shared_pool : shared_pool,
             with_dir : with_dir,
+            big_files : big_files,
+            odd_names : odd_names,
         }
     }
 
     fn fresh_name(&mut self, kind : &str) -> String
     {
         self.next_name += 1;
-        let letter = *self.rng.pick(LETTERS);
+        let letter = if self.odd_names && self.rng.chance(1, 3) { *self.rng.pick(&["\u{e9}", "\u{f1}", "\u{3b1}", "\u{6587}"]) } else { *self.rng.pick(LETTERS) };
         let base = format!("{}{}{}", letter, kind, self.next_name);
         if self.with_dir && kind == "t"
         {
@@ -134,6 +140,16 @@ impl Gen
             return vec![];      // an empty file: its hash is the hash of nothing, as in FileState::empty()
         }
         let k = self.rng.below(3);
+        if self.big_files && self.rng.chance(1, 6)
+        {
+            // sizes around the 256-byte read buffer of the hashing loop, and beyond
+            let len = *self.rng.pick(&[255usize, 256, 257, 511, 512, 513, 700]);
+            let unit = format!("{}#{}|", path, k);
+            let mut v = Vec::with_capacity(len);
+            while v.len() < len { v.extend_from_slice(unit.as_bytes()); }
+            v.truncate(len);
+            return v;
+        }
         if self.shared_pool
         {
             vec![b'A' + k as u8]
